@@ -257,7 +257,12 @@ func (h *c15Harness) enumerate(step int) *Violation {
 		nVaults := len(w.App.VaultKeeper.GetVaults(ctx))
 		borrows, _ := w.App.LendKeeper.GetBorrows(ctx)
 		want := map[string]int{"auctionsV2": 2 + nAuctions, "rewards": 1, "esm": 1} // the limit-bid matching may see fewer auctions (closed by the update just before)
-		if nVaults > 0 {
+		esmExecuted := false
+		for _, st := range w.App.EsmKeeper.GetAllESMStatus(ctx) {
+			esmExecuted = esmExecuted || st.Status
+		}
+		// after an executed shutdown the esm hook, which runs earlier in the same block, may close every vault first
+		if nVaults > 0 && !esmExecuted {
 			want["liquidationsV2"]++
 		}
 		if len(borrows) > 0 {
@@ -266,7 +271,7 @@ func (h *c15Harness) enumerate(step int) *Violation {
 		for _, m := range sortedKeys(want) {
 			if perModule[m] < want[m] {
 				return &Violation{Property: "C15", OracleID: "c15.inventory", Signature: "work_item_not_wrapped:" + m,
-					Detail: fmt.Sprintf("height %d: block hooks of %s ran %d atomic work items, at least %d expected (%d auctions, %d vaults, %d borrows)", w.Height(), m, perModule[m], want[m], nAuctions, nVaults, len(borrows))}
+					Detail: fmt.Sprintf("height %d: block hooks of %s ran %d atomic work items, at least %d expected (%d auctions, %d vaults, %d borrows); items seen: %v", w.Height(), m, perModule[m], want[m], nAuctions, nVaults, len(borrows), labelCount)}
 			}
 		}
 		w.Stats.Probe("c15.inventory_checked")
@@ -346,6 +351,12 @@ func c15EnvGens() []OpGen {
 			}
 			d := []string{"1", "3", "-1"}[r.Intn(3)]
 			return &Event{Kind: "admin", Admin: "env_counter", Tag: "env.counter", Fault: "env.counter", Args: map[string]string{"delta": d}}
+		}},
+		{"env.dormant_pool", 3, func(w *World, r *Rng) *Event {
+			if w.Cfg.K("env_faults") == 0 {
+				return nil
+			}
+			return w.genDormantPool(r)
 		}},
 		{"env.drain", 1, func(w *World, r *Rng) *Event {
 			if w.Cfg.K("env_faults") == 0 {
